@@ -33,4 +33,12 @@ MUTANTS = [
         "    return namespace.data_types + namespace.aliases", "    return namespace.data_types")]),
     dict(id='benign-jsdoc-text', expect='silent', edits=[(JT,
         "        self.emit(' * @property {%s} .tag - Tag identifying the union variant.' % jsdoc_tag_union)", "        self.emit(' * @property {%s} .tag - Tag naming the union variant.' % jsdoc_tag_union)")]),
+    # --- generator totality (C16-R5)
+    dict(id='tsd-union-falls-into-struct-emitter', expect='fire', rule='C16-R5', edits=[(TT,
+        "        elif is_struct_type(data_type):\n            self._generate_struct_type(data_type, indent_spaces, extra_args)\n        elif is_union_type(data_type):\n            self._generate_union_type(data_type, indent_spaces)",
+        "        elif is_union_type(data_type) and data_type.all_fields:\n            self._generate_union_type(data_type, indent_spaces)\n        else:\n            self._generate_struct_type(data_type, indent_spaces, extra_args)")]),
+    dict(id='tsd-fmt-tag-loses-val', expect='fire', rule='C16-R5', edits=[(TH,
+        "    elif tag == 'val':", "    elif tag == 'value':")]),
+    dict(id='js-new-spec-dependent-raise', expect='fire', rule='C16-R5', edits=[(JT,
+        "    def _generate_union(self, union_type):", "    def _generate_union(self, union_type):\n        if not union_type.all_fields:\n            raise ValueError('empty union')")]),
 ]
